@@ -177,6 +177,10 @@ func cliCompare(sc *core.Scenario) (*core.Violation, cliOut) {
 }
 
 func cliItem(idx int, ctx *core.Ctx) {
+	if idx%40 == 3 && os.Getenv("VERIF_NO_CONFORM") == "" {
+		fmtRepeat(idx, ctx)
+		return
+	}
 	sc := cliBase(idx, ctx)
 	sc.Tier = ctx.Tier
 	// only programs the parser accepts are interesting here (errors are compared too, but cheaply)
@@ -246,4 +250,64 @@ func cliCheck(sc *core.Scenario) *core.Violation {
 	defer Cleanup()
 	v, _ := cliCompare(sc)
 	return v
+}
+
+// fmtRepeat: `evy fmt` (plain, -c) on several files of which several do not parse or are not
+// formatted, as the real binary in fresh processes under different GOMAXPROCS: what it prints
+// (formatted text, parse errors, which file it complains about), on which stream, and the exit
+// status are a function of the files and their order on the command line.
+func fmtRepeat(idx int, ctx *core.Ctx) {
+	bin := filepath.Join(core.ScratchDir, "bin", "evy")
+	if _, err := os.Stat(bin); err != nil {
+		ctx.Inc("cli_native_skipped_no_binary", 1)
+		return
+	}
+	r := core.ItemRNG(ctx.Seed, "C08-fmt", idx)
+	dir := filepath.Join(wd(), fmt.Sprintf("fmt%d", idx%16))
+	os.RemoveAll(dir)       //nolint:errcheck
+	os.MkdirAll(dir, 0o755) //nolint:errcheck
+	texts := []string{"x := 1\nprint x\n", "x:=1\nprint   x\n", "x := \nprint )\n", "print 1 +\nprint (\n", "func f\nprint 1\n", "a:=[1 2\n", "y := 2\nprint y // fine\n", "print   \"spaces\"\n"}
+	n := r.Range(3, 12)
+	var names []string
+	desc := ""
+	for i := 0; i < n; i++ {
+		name := fmt.Sprintf("f%02d.evy", i)
+		k := r.Intn(len(texts))
+		desc += fmt.Sprint(k)
+		if os.WriteFile(filepath.Join(dir, name), []byte(texts[k]), 0o644) != nil {
+			return
+		}
+		names = append(names, name)
+	}
+	for _, mode := range [][]string{{"fmt", "-c"}, {"fmt"}} {
+		var first string
+		for i, procs := range []string{"16", "1", "4", "16", "8", "16"} {
+			cmd := exec.Command(bin, append(append([]string{}, mode...), names...)...)
+			cmd.Dir = dir
+			cmd.Env = append(os.Environ(), "GOMAXPROCS="+procs)
+			var so, se bytes.Buffer
+			cmd.Stdout, cmd.Stderr = &so, &se
+			err := cmd.Run()
+			code := 0
+			if ee, ok := err.(*exec.ExitError); ok {
+				code = ee.ExitCode()
+			}
+			ctx.Inc("evaluations", 1)
+			ctx.Inc("cli_native_fmt_runs", 1)
+			o := fmt.Sprintf("status %d\nSTDOUT:\n%s\nSTDERR:\n%s\n", code, so.String(), se.String())
+			if strings.Contains(o, "goroutine ") {
+				break
+			}
+			if i == 0 {
+				first = o
+			} else if o != first {
+				sc := &core.Scenario{Property: "C08", Seed: ctx.Seed, Index: idx, Level: "cli-native", Kind: "fmt-repeat", ReplayExact: false, Argv: append(append([]string{}, mode...), names...), Program: desc}
+				ctx.Violate(sc, &core.Violation{Oracle: "cli-repeat", Signature: "cli:fmt-new-process",
+					Expected: "repeating `evy fmt` on the same files in a new process reproduces output, errors and exit status byte for byte",
+					Observed: map[string]any{"files": desc, "args": sc.Argv, "run1": trunc(first, 700), "run" + fmt.Sprint(i+1): trunc(o, 700)},
+					Match:    map[string]string{"observable": "cli-fmt"}})
+				return
+			}
+		}
+	}
 }
